@@ -16,7 +16,17 @@ B  CondTrace: seeded random trees (all prefix lengths, one-bit neighbours of the
 import json
 import os
 import subprocess
+import sys
+import time
 import vlib
+
+_T0 = [time.time()]
+
+
+def _phase(label):
+    if os.environ.get("VERIF_DEBUG"):
+        sys.stderr.write("[%s] %-28s %.1fs\n" % (__name__, label, time.time() - _T0[0]))
+    _T0[0] = time.time()
 
 MANIFEST = {
     "level": "model_checking",
@@ -141,6 +151,7 @@ def main():
         for a in ("DesugarStep", "Normalize", "Instrument", "Evaluate"):
             vlib.require(r.coverage.get(a, (0, 0))[0] > 0, "vacuous: action %s never taken" % a)
         run.add_tlc(r, "CondMC")
+        _phase("M CondMC")
         # negative runs on the model: the invariants / theorems are not vacuous
         n1 = vlib.tlc("cond", "CondMC", "CondMCNeg.cfg", scratch=sc, timeout=600, consts="CONSTANT MaskInPlace = TRUE")
         vlib.require(n1.violation == "ResultsRight",
@@ -151,16 +162,19 @@ def main():
         run.cov["negative_model_runs"] = ["MaskInPlace=TRUE violates ResultsRight",
                                           "NeqForeignFamily=FALSE breaks the '!=' / NNF theorems"]
 
+        _phase("M negative runs")
         # ---------------------------------------------------------------- F
         g = vlib.tlc("cond", "CondGen", "CondGen.cfg", scratch=sc, timeout=1500,
                      consts='CONSTANT GenSet = "%s"' % ("thorough" if thorough else "quick"))
         vlib.expect_tlc_ok(g, "CondGen")
         vlib.require(len(g.traces) > 9000 and g.infos, "generator produced too few cases")
         run.add_tlc(g, "CondGen")
+        _phase("F generator")
         universe = g.infos[0]["flows"]
         fam_of = {f["id"]: f["fam"] for f in universe}
         cases = sorted(g.traces, key=lambda c: (c["h"], json.dumps(c["tree"], sort_keys=True)))
         summ, bad = replay_cases(vh, universe, cases, run.seed)
+        _phase("F replay")
         run.count(summ["evaluations"])
         run.cov["traces_validated_against_impl"] += len(cases)
         run.cov["conditions_replayed"] = len(cases)
@@ -203,6 +217,7 @@ def main():
                      "negative control: corrupted expectation was accepted by the replay")
         run.cov["negative_control"] = "flipped expectation of flow 1 of a passing condition rejected by the replay"
 
+        _phase("F classify + control")
         # ---------------------------------------------------------------- B
         ntrees, depth, nfl = (6000, 5, 8) if thorough else (1200, 4, 6)
         p = subprocess.run([vh, "cond-drive", "-seed", str(run.seed), "-n", str(ntrees), "-depth", str(depth), "-flows", str(nfl)],
@@ -218,6 +233,7 @@ def main():
         if t.error or t.violation:
             raise vlib.MachineryError("CondTrace: %s %s\n%s" % (t.error, t.violation, t.stdout[-2000:]))
         run.add_tlc(t, "CondTrace")
+        _phase("B drive + CondTrace")
         run.count(len(evs) * nfl * 2)
         run.cov["traces_validated_against_impl"] += len(evs)
         run.cov["random_trees_validated"] = len(evs)
